@@ -842,8 +842,8 @@ class Sim:
 
     def _find_map(self, fn, env, bb, t, path, depth, cont, it, f, next_fn, k):
         """Iterator::find_map over a local iterator type: next() and the closure are evaluated in turn until the
-        closure answers Some or the iterator ends (at most 8 items)."""
-        if k > 8 or depth >= self.max_depth:
+        closure answers Some or the iterator ends (at most 16 items)."""
+        if k > 16 or depth >= self.max_depth:
             path.end = "stop:iter-limit"
             return [(env, path, None)]
         ff = self.find_fn(f.path)
